@@ -1047,7 +1047,7 @@ class StateEngine(object):
             #print("self.branch_metadata length:")
             #print(len(self.branch_metadata))
 
-    def branch_has_terminated(self, state_type, context, id, timeout):
+    def branch_has_terminated(self, state_type, context, id, timeout, redelivered=False):
         """
         Check if the current Map or Parallel branch has been terminated.
         """
@@ -1072,6 +1072,27 @@ class StateEngine(object):
             branch states won't have been acknowledged, so will be redelivered.
             """
             if not execution_arn in self.branch_metadata:
+                """
+                An event of a Parallel Branch or Map Iterator may be delivered,
+                or the timer that defers its Task, Parallel or Map state may
+                fire (for the first time, so not as a redelivery following a
+                restart), after its execution has ended and after the branch
+                metadata that was retained to recognise such late arrivals has
+                been discarded. The execution record still says that the
+                execution is over, so the event is dropped rather than left to
+                end the execution again.
+                """
+                if not redelivered:
+                    execution_detail = self.executions.get(execution_arn)
+                    if execution_detail and execution_detail.get("status") != "RUNNING":
+                        self.logger.info(
+                            "Dropping late event for state \"{}\" of {}, which has already ended".format(
+                                context["State"].get("Name"), execution_arn
+                            )
+                        )
+                        self.event_dispatcher.acknowledge(id)
+                        return True
+
                 #print("Initialise the branch_metadata dict")
                 self.branch_metadata[execution_arn] = BranchMetadata(
                     context,
@@ -1959,7 +1980,8 @@ class StateEngine(object):
             the meantime; if so this branch must make no further progress.
             """
             if self.branch_has_terminated(
-                state_type, context, id, ASL.get("TimeoutSeconds", self.execution_ttl)
+                state_type, context, id, ASL.get("TimeoutSeconds", self.execution_ttl),
+                redelivered
             ):
                 return
 
@@ -2738,7 +2760,8 @@ class StateEngine(object):
             the meantime; if so this branch must make no further progress.
             """
             if self.branch_has_terminated(
-                state_type, context, id, ASL.get("TimeoutSeconds", self.execution_ttl)
+                state_type, context, id, ASL.get("TimeoutSeconds", self.execution_ttl),
+                redelivered
             ):
                 return
 
@@ -2935,7 +2958,8 @@ class StateEngine(object):
             the meantime; if so this branch must make no further progress.
             """
             if self.branch_has_terminated(
-                state_type, context, id, ASL.get("TimeoutSeconds", self.execution_ttl)
+                state_type, context, id, ASL.get("TimeoutSeconds", self.execution_ttl),
+                redelivered
             ):
                 return
 
@@ -3691,28 +3715,7 @@ class StateEngine(object):
         """
         timeout = ASL.get("TimeoutSeconds", self.execution_ttl)
 
-        """
-        An event of a Parallel Branch or Map Iterator may be delivered (for
-        the first time, so not as a redelivery following a restart) after its
-        execution has ended and after the branch metadata that was retained
-        to recognise such late events has been discarded by the timeout back
-        stop. The execution record still says that the execution is over, so
-        the event is dropped rather than left to end the execution again.
-        """
-        if (not redelivered and "Branch" in context["State"] and
-            state_machine_type == "STANDARD" and
-            execution_arn not in self.branch_metadata):
-            execution_detail = self.executions.get(execution_arn)
-            if execution_detail and execution_detail.get("status") != "RUNNING":
-                self.logger.info(
-                    "Dropping late event for state \"{}\" of {}, which has already ended".format(
-                        current_state, execution_arn
-                    )
-                )
-                self.event_dispatcher.acknowledge(id)
-                return
-
-        if self.branch_has_terminated(state_type, context, id, timeout):
+        if self.branch_has_terminated(state_type, context, id, timeout, redelivered):
             return
 
         """
